@@ -283,9 +283,9 @@ func c04StreamOne(env *fw.Env, i int64, kind string, arg int) {
 				env.Event("local_writes_inside_a_stalled_frame", 1)
 			}
 		}
-		time.Sleep(6 * t8)
-		if !pc.WaitClosed(10 * time.Second) {
-			fail("in-frame-stall-not-dropped", fmt.Sprintf("the stream stalled after %d bytes of a frame for %v (T8 %v) and 10 s later the link is still up", arg, 6*t8, t8))
+		// (every other timer of this rig is 10 s or more: the 3 s of slack also tell T8 from a wrong timer)
+		if !pc.WaitClosed(6*t8 + 3*time.Second) {
+			fail("in-frame-stall-not-dropped", fmt.Sprintf("the stream stalled after %d bytes of a frame (T8 %v) and %v later the link is still up", arg, t8, 6*t8+3*time.Second))
 			return
 		}
 		_ = pc.SendRaw(b[arg:])
